@@ -176,7 +176,7 @@ def units(ctx):
     g.hint("after: let divisor =", "proof { assert(divisor.coefficients@.len() == 2 && divisor.lead() == (1real, 0real)); }")
     g.loop(2, iter="it", invariant=["complex.wf()", "self.coefficients@.len() >= 4", "roots@.len() == self.coefficients@.len() - 1", "cs(complex) == cs(*self)",
                                      "forall|i: int| 0 <= i < corrected_roots@.len() ==> newton_result(cs(*self), #[trigger] corrected_roots@[i]@, tol@)", "corrected_roots@.len() == it.index@", "forall|k: int| 0 <= k < it.history@.len() ==> *it.history@[k] == roots@[k]"])
-    return [u, real_unit(), C12.complex_unit("C14")]
+    return [u, real_unit(), C12.complex_unit("C14"), zeros_unit()]
 
 
 def cfg_real():
@@ -278,6 +278,9 @@ DECIDED = [
     "degree >= 3: every division in the Laguerre step has a non-zero divisor (|p(x)| >= tol > 0; the denominator is used only when its modulus is > 0) -- this is the obligation the x^n - c defect failed; "
     "an exhausted iteration cap gives Err; every returned number is an Ok result of newton_polynomial on the ORIGINAL (undeflated) polynomial",
     "make_complex: same coefficients, same tolerance",
+    "legendre_zeros / laguerre_zeros (unit zeros, real instantiation; the constructors and roots() through their proved contracts only): n == 0 -> Ok(empty); n == 1 -> Ok([0]) / Ok([1]) (the exact zero of P_1 / L_1); "
+    "n >= 2 with a non-negligible leading coefficient: an Ok result has exactly n entries (the constructor returns n + 1 coefficients and its own tolerance, roots() returns degree-many numbers, "
+    "the real-part / snap-to-zero map keeps the count); no unwrap, index or arithmetic overflow can fail",
     "Polynomial::roots at the REAL instantiation (N = f64, unit roots_real; the complex polynomial type appears there through contracts only, its roots() contract being the one "
     "proved in unit roots): same clauses -- count, refusal of a negligible leading coefficient, degree 1 exact, degree 2: the two numbers are (-b +- s)/(2a) with s the COMPLEX square root "
     "of the real discriminant read as (d, 0) (so a negative discriminant gives the conjugate pair, not NaN), degree >= 3 as above",
@@ -285,7 +288,8 @@ DECIDED = [
 NOT_DECIDED = [
     "that the returned numbers of degree >= 3 are roots to within a tolerance-scaled residual, match the true roots one-to-one, come in conjugate pairs, and that the result is Ok for separated roots "
     "(convergence of Laguerre / Newton iterations: analytic, no contract over exact reals expresses it); newton_result is the C08 contract (a Newton update of size <= tol), not a residual bound",
-    "legendre_zeros / hermite_zeros / laguerre_zeros (n distinct real zeros inside the orthogonality interval): not under contract",
+    "legendre_zeros / laguerre_zeros: that the n numbers are distinct and lie inside the orthogonality interval (follows from accuracy of roots(), not decided); "
+    "hermite_zeros: not under contract (its deflation loop needs the tolerance of hermite()'s result, which the product contract of multiply() does not carry); bounded probe only",
     "floating-point effects (tolerance near rounding noise)",
 ]
 ASSUMPTIONS = [
@@ -293,6 +297,71 @@ ASSUMPTIONS = [
     "callee contracts restated, not re-proved here: evaluate (Horner value), derivative, evaluate_derivative, from_slice (verified at N = real in C13), newton_polynomial (C08)",
     "divide() by a monic linear factor returns a quotient one shorter with the same leading coefficient and tolerance when the dividend's leading coefficient is not purged "
     "(precondition lead_kept: the property's 'non-negligible leading coefficient'): restated in units roots / roots_real, PROVED in unit divide_complex (the C12 unit, re-run here)",
+    "unit zeros: legendre(n, tol) / laguerre(n, tol) restated as 'Ok, n + 1 coefficients, tolerance tol, coefficient n is fam_lead(n)' (consequences of the contracts proved in C18, which gained the tolerance clause for this); "
+    "roots() at the real instantiation restated with its count clause (proved in unit roots_real); the precondition |fam_lead(n)| > poly_tol is the property's non-negligible leading coefficient; "
+    "rule R37: the public field `c.re` of num_complex read through the shim's accessor; vstd's specifications of VecDeque::iter, Iterator::map and collect",
     "VecDeque::from(Vec) shim (same elements); `polynomial![a, b]` expanded as its macro definition (R18)",
     "NRA side lemmas lemma_quad_plus / lemma_quad_minus discharged by z3 and cvc5, used as external_body proof fns",
 ]
+
+
+# ---- the zero finders of the orthogonal polynomials (src/special/polynomial/mod.rs), real instantiation ----------------------------
+SFILE = "src/special/polynomial/mod.rs"
+
+ZEROS_SPEC = r'''
+use std::collections::VecDeque;
+impl Polynomial {
+    pub open spec fn wf(&self) -> bool { self.coefficients@.len() >= 1 }
+    pub open spec fn lead(&self) -> (real, real) { (self.coefficients@[self.coefficients@.len() - 1]@, 0real) }
+    pub open spec fn lead_kept(&self) -> bool { !(rabs(self.lead().0) <= self.tolerance@ && rabs(self.lead().1) <= self.tolerance@) }
+}
+// the leading coefficient c(n, n) of family `fam` (0 Legendre, 2 Laguerre): the value C18 proves coefficient n of the constructor's result to have
+// (leg_c(n, n) of the three-term recurrence; (-1)^n / n! for Laguerre).  Abstract here: only "the constructor returns it" and "it is not negligible" are used.
+pub uninterp spec fn fam_lead(fam: int, n: nat) -> real;
+// constructors: CONTRACTS ONLY (consequences of the contracts proved in C18, unit special)
+#[verifier::external_body]
+pub fn legendre(n: u32, tol: R) -> (res: Result<Polynomial, String>)
+    requires tol@ > 0real, n <= 0x3fff_ffff
+    ensures res is Ok, res->Ok_0.coefficients@.len() == n + 1, res->Ok_0.tolerance == tol, res->Ok_0.coefficients@[n as int]@ == fam_lead(0, n as nat)
+{ unimplemented!() }
+#[verifier::external_body]
+pub fn laguerre(n: u32, tol: R) -> (res: Result<Polynomial, String>)
+    requires tol@ > 0real, n < 0x3fff_ffff
+    ensures res is Ok, res->Ok_0.coefficients@.len() == n + 1, res->Ok_0.tolerance == tol, res->Ok_0.coefficients@[n as int]@ == fam_lead(2, n as nat)
+{ unimplemented!() }
+impl Polynomial {
+    // roots() at the real instantiation: CONTRACT ONLY (clauses proved in unit roots_real)
+    #[verifier::external_body]
+    pub fn roots(&self, tol: R, n_max: usize) -> (res: Result<VecDeque<C>, String>)
+        requires self.wf(), tol@ > 0real, self.lead_kept()
+        ensures res is Ok && self.coefficients@.len() >= 2 ==> res->Ok_0@.len() == self.coefficients@.len() - 1
+    { unimplemented!() }
+}
+// what the zero finders make of one complex root: its real part, snapped to 0 when within the tolerance
+pub open spec fn snapped(c: (real, real), tol: real) -> real { if rabs(c.0) < tol { 0real } else { c.0 } }
+'''
+
+
+def zeros_cfg():
+    c = cfg_real()
+    return c
+
+
+def zeros_unit():
+    u = Unit("C14", "zeros", preludes=("real", "stdx", "cx", "cxdiv"), cfg=zeros_cfg())
+    u.crate_attrs = []
+    u.item(PFILE, "struct", "Polynomial")
+    u.spec(ZEROS_SPEC)
+    for name, fam, one in (("legendre_zeros", 0, "0real"), ("laguerre_zeros", 2, "1real")):
+        f = u.fn(SFILE, name)
+        lim = "n <= 0x3fff_ffff" if fam == 0 else "n < 0x3fff_ffff"
+        f.req("tol@ > 0real", "poly_tol@ > 0real", lim,
+              # the property's "non-negligible leading coefficient", for the polynomial the constructor returns
+              f"n >= 2 ==> rabs(fam_lead({fam}, n as nat)) > poly_tol@")
+        f.ens("n == 0 ==> res is Ok && res->Ok_0@.len() == 0",
+              f"n == 1 ==> res is Ok && res->Ok_0@.len() == 1 && res->Ok_0@[0]@ == {one}",
+              # exactly n numbers
+              "res is Ok ==> res->Ok_0@.len() == n")
+        # R37: num_complex's public field `re` read through the shim's accessor (the shim keeps its components ghost)
+        f.opt(subst=[("c.re", "(*c).real()", "R37-complex-field-re")])
+    return u
